@@ -1,9 +1,14 @@
 /-
 C12 — the VM is total, bounded and memory-safe on every script; its item accounting never
 under-counts and is exact without cycles; a statically checked script never executes a
-non-boundary offset.  (stage 1: first theorems; the main ones follow)
+non-boundary offset.
+
+Part 1 (this section): the item accounting. Model: NeoModel/Model/VmAcct (the VM's counter as
+vm.go / ref_counter.go / stack.go / slot.go maintain it, `reach` = what a walk finds).
 -/
-import NeoModel.Model.VmAcct
+import NeoModel.Proofs.VmAcctRun
+import NeoModel.Proofs.VmAcctGas
+import NeoModel.Proofs.ScriptCheck
 import NeoModel.Generated.Opcodes
 namespace NeoModel.C12
 open NeoModel.VmAcct
@@ -15,26 +20,212 @@ def runOps : St → List (Op × Option (Nat × Bool)) → Option St
     | none => none
     | some s' => runOps s' r
 
+/-- every instruction of the list is in the covered set when it is executed -/
+def OkAll : St → List (Op × Option (Nat × Bool)) → Prop
+  | _, [] => True
+  | s, (o, u) :: r => o.okFor s ∧ ∀ s1, step s o u false = some s1 → OkAll s1 r
+
+theorem run_of_runOps : ∀ (ops : List (Op × Option (Nat × Bool))) (s s' : St), Run s → OkAll s ops → runOps s ops = some s' → Run s' := by
+  intro ops
+  induction ops with
+  | nil => intro s s' hr _ h; simp only [runOps, Option.some.injEq] at h; rw [← h]; exact hr
+  | cons a t ih =>
+    intro s s' hr hok h
+    obtain ⟨o, u⟩ := a
+    simp only [runOps] at h
+    cases hs : step s o u false with
+    | none => simp [hs] at h
+    | some s1 =>
+      simp only [hs] at h
+      exact ih s1 s' (Run.step o u false hr hok.1 hs) (hok.2 s1 hs) h
+
+/-! ## soundness: the counter never under-counts -/
+
+/-- **refs_sound.** In every state the accounting machine reaches from the initial state through
+instructions of the covered set (all frame-level instructions: slots, CALL*, RET with value
+moving and context unloading, script loading, THROW/ENDFINALLY with exception unwinding *including*
+unwinding across evaluation stacks; the stack instructions; NEWARRAY*/NEWSTRUCT*/NEWMAP, PACK,
+PACKSTRUCT, APPEND, SETITEM, REMOVE, CLEARITEMS, POPITEM, PICKITEM, REVERSEITEMS — cyclic
+structures allowed), what a walk over stacks, slots and compounds finds never exceeds the
+implementation's counter. -/
+theorem refs_sound (s : St) (h : Run s) : (s.reach : Int) ≤ s.c.refs := VmAcct.refs_sound h
+
+/-- non-vacuity: a run that builds a self-containing array (`NEWARRAY0 DUP DUP APPEND DROP`) and
+leaves it as garbage: the counter stays at 1 with nothing reachable — over-count, as allowed. -/
+def cycleOps : List (Op × Option (Nat × Bool)) :=
+  [(.s (.newEmpty .arr), none), (.s .dup, none), (.s .dup, none), (.s .append, none), (.s (.generic 1 0), none)]
+
+set_option maxRecDepth 20000 in
+example : ∃ s, Run s ∧ s.c.refs = 1 ∧ s.reach = 0 := by
+  have h : (runOps St.init cycleOps).map (fun s => (s.c.refs, s.reach)) = some (1, 0) := by
+    simp [runOps, cycleOps, step, exec, execS, St.init, St.w, St.setW, St.cur, St.setCur, curOf, setCurOf, ok, okW, W.popN,
+      W.pushPrims, W.push, W.pop, W.alloc, W.setHeap, W.cloneIfStruct, Ctr.add, Ctr.rem, addW, remW, Item.cid,
+      Kind.mk, rcOf, chOf, incRC, decRC, setCh, St.reach, reachFrom, St.roots, Frame.roots, slotItems, walk, childSum,
+      maxStackSize]
+  cases hr : runOps St.init cycleOps with
+  | none => simp [hr] at h
+  | some s =>
+    simp only [hr, Option.map_some, Option.some.injEq, Prod.mk.injEq] at h
+    refine ⟨s, run_of_runOps cycleOps St.init s Run.init ?_ hr, h.1, h.2⟩
+    simp [OkAll, cycleOps, Op.okFor, SOp.core, SOp.okFor, step, exec, execS, St.init, St.w, St.setW, St.cur, St.setCur, curOf,
+      setCurOf, ok, okW, W.push, W.alloc, W.setHeap, Ctr.add, addW, Item.cid, Kind.mk, rcOf, chOf, incRC, maxStackSize]
+
+/-! ## exactness without cycles -/
+
+/-- **refs_exact.** If no cyclic structure was ever built during the run (the heap, garbage
+included, was acyclic before every step and is acyclic now) and exception unwinding never dropped
+an evaluation stack with content, the implementation's counter EQUALS what a walk finds.
+(`RunExact` also carries `base = []`: the VM's first stack object holds nothing, as in a VM that
+starts by loading the entry script on an empty stack.) -/
+theorem refs_exact (s : St) (h : RunExact s) (ha : Acyclic s.c.heap) : s.c.refs = (s.reach : Int) :=
+  VmAcct.refs_exact h ha
+
+/-- non-vacuity: `PUSH PUSH PUSH2 PACK DUP` (an array of two items, referenced twice) is an exact run
+with an acyclic heap; counter = walk = 4. -/
+def packOps : List (Op × Option (Nat × Bool)) :=
+  [(.s (.generic 0 1), none), (.s (.generic 0 1), none), (.s (.generic 0 1), none), (.s (.pack .arr 2), none), (.s .dup, none)]
+
+theorem acyclic_of_prims (h : Heap) (hp : ∀ j, ∀ x ∈ chOf h j, x = .prim) : Acyclic h :=
+  ⟨fun _ => 0, fun j x hx d hd => by rw [hp j x hx] at hd; cases hd⟩
+
+set_option maxRecDepth 20000 in
+example : ∃ s, RunExact s ∧ Acyclic s.c.heap ∧ s.c.refs = 4 ∧ s.reach = 4 := by
+  have step1 : ∀ s op s', step s op none false = some s' → op.okFor s → Acyclic s.c.heap → s.base = [] →
+      RunExact s → RunExact s' := by
+    intro s op s' hs hok ha hb hr
+    exact RunExact.step op none false hr hok ha hb (by intro r x k c _ _ hu; cases hu) hs
+  let s1 : St := { St.init with c := { heap := [], refs := 1 }, frames := [{ own := some [.prim], isScript := true, retCount := 1 }] }
+  let s2 : St := { St.init with c := { heap := [], refs := 2 }, frames := [{ own := some [.prim, .prim], isScript := true, retCount := 1 }] }
+  let s3 : St := { St.init with c := { heap := [], refs := 3 }, frames := [{ own := some [.prim, .prim, .prim], isScript := true, retCount := 1 }] }
+  let h1 : Heap := [{ rc := 1, ch := [.prim, .prim] }]
+  let h2 : Heap := [{ rc := 2, ch := [.prim, .prim] }]
+  let s4 : St := { St.init with c := { heap := h1, refs := 3 }, frames := [{ own := some [.arr 0], isScript := true, retCount := 1 }] }
+  let s5 : St := { St.init with c := { heap := h2, refs := 4 }, frames := [{ own := some [.arr 0, .arr 0], isScript := true, retCount := 1 }] }
+  have a0 : Acyclic ([] : Heap) := acyclic_of_prims _ (by intro j x hx; simp [chOf] at hx)
+  have a1 : Acyclic ([{ rc := 1, ch := [.prim, .prim] }] : Heap) := acyclic_of_prims _ (by
+    intro j x hx
+    cases j with
+    | zero => simpa [chOf] using hx
+    | succ j => simp [chOf] at hx)
+  have a2 : Acyclic ([{ rc := 2, ch := [.prim, .prim] }] : Heap) := acyclic_of_prims _ (by
+    intro j x hx
+    cases j with
+    | zero => simpa [chOf] using hx
+    | succ j => simp [chOf] at hx)
+  have ok0 : ∀ s, (Op.s (.generic 0 1)).okFor s := fun s => ⟨rfl, trivial⟩
+  have r1 : RunExact s1 := step1 St.init (.s (.generic 0 1)) s1 (by
+    simp [s1, step, exec, execS, St.init, St.w, St.setW, St.cur, St.setCur, curOf, setCurOf, ok, W.popN, W.pushPrims, W.push,
+      Ctr.add, addW, Item.cid, maxStackSize]) (ok0 _) a0 rfl RunExact.init
+  have r2 : RunExact s2 := step1 s1 (.s (.generic 0 1)) s2 (by
+    simp [s1, s2, step, exec, execS, St.init, St.w, St.setW, St.cur, St.setCur, curOf, setCurOf, ok, W.popN, W.pushPrims, W.push,
+      Ctr.add, addW, Item.cid, maxStackSize]) (ok0 _) a0 rfl r1
+  have r3 : RunExact s3 := step1 s2 (.s (.generic 0 1)) s3 (by
+    simp [s2, s3, step, exec, execS, St.init, St.w, St.setW, St.cur, St.setCur, curOf, setCurOf, ok, W.popN, W.pushPrims, W.push,
+      Ctr.add, addW, Item.cid, maxStackSize]) (ok0 _) a0 rfl r2
+  have r4 : RunExact s4 := step1 s3 (.s (.pack .arr 2)) s4 (by
+    simp [s3, s4, h1, step, exec, execS, St.init, St.w, St.setW, St.cur, St.setCur, curOf, setCurOf, ok, okW, W.pop, W.alloc,
+      W.setHeap, W.pushNoRef, W.addRefs, Kind.mk, Ctr.rem, remW, Item.cid, maxStackSize]) ⟨rfl, trivial⟩ a0 rfl r3
+  have r5 : RunExact s5 := step1 s4 (.s .dup) s5 (by
+    simp [s4, s5, h1, h2, step, exec, execS, St.init, St.w, St.setW, St.cur, St.setCur, curOf, setCurOf, ok, okW, W.push,
+      Ctr.add, addW, Item.cid, rcOf, incRC, maxStackSize]) ⟨rfl, trivial⟩ a1 rfl r4
+  refine ⟨s5, r5, a2, rfl, ?_⟩
+  simp [s5, h2, St.init, St.reach, reachFrom, St.roots, Frame.roots, slotItems, walk, Item.cid, chOf, childSum]
+
+/-! ## the two places where the implementation breaks the property -/
+
 /-- DESIGN §6 item 8 as an instruction stream of the model: caller `TRY SYSCALL(load callee)`,
 callee `PUSH1 PUSH2 PUSH3 PUSH0 THROW`, the caller's CATCH receives the exception. -/
 def unwindWitness : List (Op × Option (Nat × Bool)) :=
   [(.nop, none), (.load 0 0, none), (.s (.generic 0 1), none), (.s (.generic 0 1), none), (.s (.generic 0 1), none),
    (.s (.generic 0 1), none), (.throw_, some (1, true))]
 
-/-- FINDING `unwind-across-estack` (negation of "exact without cycles" on a concrete run): after
-the exception crossed a context that owned its evaluation stack the counter says 4 while one item
-is reachable; no compound item exists at all. -/
+/-- FINDING `unwind-across-estack` (negation of "exact without cycles" on a concrete run of covered
+instructions): after the exception crossed a context that owned its evaluation stack the counter
+says 4 while one item is reachable; no compound item exists at all (so the heap is acyclic).
+Soundness (`refs_sound`) covers this run; exactness needs `cleanUnwind`, which it violates. -/
 theorem refs_exact_fails_on_unwind :
     (runOps St.init unwindWitness).map (fun s => (s.c.refs, s.reach, s.c.heap.length)) = some (4, 1, 0) := by
   simp [runOps, unwindWitness, step, exec, execS, St.init, St.w, St.setW, St.cur, St.setCur, curOf, setCurOf, ok, W.popN,
     W.pushPrims, W.push, W.pop, Ctr.add, Ctr.rem, Ctr.addAll, Ctr.remAll, addW, remW, Item.cid, unwind, unwindFrames,
     unloadSlots, slotItems, St.reach, reachFrom, St.roots, Frame.roots, walk, childSum, maxStackSize, maxInvocationStackSize]
 
-/-- generated fact (pkg/core/fee/opcode.go): every valid opcode except ABORT, ABORTMSG, RET and
-SYSCALL has a price coefficient ≥ 1. -/
-theorem price_pos_table :
-    (Generated.Opcodes.table.all fun e =>
-      e.2.1 == "ABORT" || e.2.1 == "ABORTMSG" || e.2.1 == "RET" || e.2.1 == "SYSCALL" || decide (1 ≤ e.2.2.2.2)) = true := by
+/-- the corpus case `map-remove-cyclic` as an instruction stream of the model: `m[1] = [m]`, all
+other references dropped, then `REMOVE(m, 1)`. -/
+def mapRemoveWitness : List (Op × Option (Nat × Bool)) :=
+  [(.initslot 2 0, none), (.s (.newEmpty .map), none), (.st .loc 0, none), (.s (.newEmpty .arr), none), (.st .loc 1, none),
+   (.ld .loc 1, none), (.ld .loc 0, none), (.s .append, none),
+   (.ld .loc 0, none), (.s (.generic 0 1), none), (.ld .loc 1, none), (.s (.setitem (-1)), none),
+   (.s (.generic 0 1), none), (.st .loc 1, none), (.ld .loc 0, none), (.s (.generic 0 1), none), (.st .loc 0, none),
+   (.s (.generic 0 1), none), (.s (.remove 0), none)]
+
+/-- The run that exposed the defect `under-count-after-REMOVE` (REMOVE of a Map entry whose value
+leads back to the map; the key used to be discounted twice: counter 1 with 2 items reachable).
+vm.go now detaches the entry before discounting it (fix commit 9265597), the model follows, and the
+run is an ordinary covered run: counter = walk = 2. -/
+theorem map_remove_run_after_fix :
+    (runOps St.init mapRemoveWitness).map (fun s => (s.c.refs, s.reach)) = some (2, 2) := by
+  simp [runOps, mapRemoveWitness, step, exec, execS, St.init, St.w, St.setW, St.cur, St.setCur, curOf, setCurOf, ok, okW, W.popN,
+    W.pushPrims, W.push, W.pop, W.popNoRef, W.alloc, W.setHeap, W.cloneIfStruct, Ctr.add, Ctr.rem, addW, remW, Item.cid,
+    slotGet, slotSet, slotItems, Kind.mk, rcOf, chOf, incRC, decRC, setCh,
+    St.reach, reachFrom, St.roots, Frame.roots, walk, childSum, maxStackSize]
+
+/-! ## Part 2: termination and gas (abstract priced machine, Model/VmAcct/Gas.lean) -/
+
+open NeoModel.VmGas in
+/-- generated fact: every valid opcode except RET, SYSCALL, ABORT, ABORTMSG has a price
+coefficient ≥ 1 (`decide` over the table regenerated from pkg/core/fee/opcode.go on every run). -/
+theorem price_pos (op : Nat) (hv : isValidOp op = true) (h1 : op ≠ opRET) (h2 : op ≠ opSYSCALL) (h3 : op ≠ opABORT)
+    (h4 : op ≠ opABORTMSG) : 1 ≤ coeff op := VmGas.price_pos op hv h1 h2 h3 h4
+
+open NeoModel.VmGas in
+/-- **total.** Under any gas limit and any price base ≥ 1, for every sequence of instructions and
+of their (data-dependent) effects, the machine has left the running state — HALT or FAULT — after
+at most `(limit + 1) · (MaxInvocationStackSize + 1) + 2` steps: every instruction that is not RET
+costs at least one unit (`price_pos`; SYSCALL through its handler, assumption `1 ≤ charge`), RET
+lowers the invocation depth, and `gstep` is a total function. -/
+theorem total (cfg : Cfg) (hb : 1 ≤ cfg.base) (sch : Sched) (hv : ∀ i, (sch i).2.okFor (sch i).1) :
+    (run cfg sch ((cfg.limit + 1) * (maxDepth + 1) + 2) {}).status ≠ .running := by
+  apply run_terminates cfg hb _ sch {} hv
+  · exact ⟨fun _ => Nat.zero_le _, fun _ => ⟨Nat.le_refl _, by decide⟩⟩
+  · simp [mu]
+
+open NeoModel.VmGas in
+/-- **gas_bound.** Whenever the machine is in HALT (or still running) it has not consumed more than
+the limit: the price is added and compared BEFORE the instruction executes (vm.go:740-746), and a
+SYSCALL's own charge is compared again (AddGas). -/
+theorem gas_bound (cfg : Cfg) (hb : 1 ≤ cfg.base) (sch : Sched) (hv : ∀ i, (sch i).2.okFor (sch i).1) (n : Nat)
+    (hh : (run cfg sch n {}).status = .halt) : (run cfg sch n {}).gas ≤ cfg.limit := by
+  have := run_ok cfg hb n sch {} hv ⟨fun _ => Nat.zero_le _, fun _ => ⟨Nat.le_refl _, by decide⟩⟩
+  exact this.gas (by rw [hh]; decide)
+
+set_option maxRecDepth 50000 in
+open NeoModel.VmGas in
+/-- non-vacuity: `PUSH1 (0x11), RET` under limit 5, base 5 halts having consumed exactly the limit;
+under limit 4 it faults. -/
+example : (run { limit := 5, base := 5 } (fun i => if i = 0 then (0x11, .cont 1) else (0x40, .ret)) 2 {}).status = .halt ∧
+    (run { limit := 5, base := 5 } (fun i => if i = 0 then (0x11, .cont 1) else (0x40, .ret)) 2 {}).gas = 5 ∧
+    (run { limit := 4, base := 5 } (fun i => if i = 0 then (0x11, .cont 1) else (0x40, .ret)) 2 {}).status = .fault := by
+  decide
+
+/-! ## Part 3: the static script check (Model/ScriptCheck.lean) -/
+
+open NeoModel.ScriptCheck in
+/-- **boundaries.** If a script passes `isScriptCorrect` (scparser.IsScriptCorrect), then along
+every control-flow path — next instruction, JMP*/CALL*/ENDTRY* targets, a return to a saved return
+address, CALLA through any pointer made by PUSHA, a jump to any registered CATCH/FINALLY/END
+offset — the instruction pointer is an instruction boundary of the script or its length. -/
+theorem boundaries (p : Prog) (hc : isScriptCorrect p = true) :
+    ∃ bs, ScriptCheck.boundaries p = some bs ∧ ∀ s, Reach p s → s.ip ∈ bs ∨ s.ip = p.length := by
+  obtain ⟨bs, hb, h⟩ := boundaries_inv p hc
+  exact ⟨bs, hb, fun s hr => (h s hr).ip⟩
+
+set_option maxRecDepth 50000 in
+open NeoModel.ScriptCheck in
+/-- non-vacuity: `PUSH1 JMP +3 ABORT RET` passes the check with boundaries 0,1,3,4; the same script
+with `JMP +2`... is rejected when the target is moved into the middle of `PUSHINT16`. -/
+example : isScriptCorrect [0x11, 0x22, 0x03, 0x38, 0x40] = true ∧
+    ScriptCheck.boundaries [0x11, 0x22, 0x03, 0x38, 0x40] = some [0, 1, 3, 4] ∧
+    isScriptCorrect [0x22, 0x03, 0x01, 0x07, 0x00, 0x40] = false := by
   decide
 
 end NeoModel.C12
